@@ -88,6 +88,9 @@ func (r *c11Runner) waitCall(c int, d time.Duration) bool {
 // enumeration stops (the violation is established, the remaining runs would only wait).
 var c11Hung int32
 
+// c11HungFail counts the hung runs in which a property oracle failed as well.
+var c11HungFail int32
+
 // missed: a deadline passed in this run; later waits of the same run are kept short.
 func (r *c11Runner) missed() {
 	if r.hang > 100*time.Millisecond {
